@@ -4,6 +4,7 @@ import (
 	"bytes"
 	"encoding/hex"
 	"fmt"
+	"io"
 	"strconv"
 	"strings"
 
@@ -302,6 +303,24 @@ func noise(r *gen.RNG) {
 			p.UnmarshalBinary(f[h.HdrLen:])
 		} else {
 			mq.ReadPacket(bytes.NewReader(f))
+		}
+	})
+}
+
+// encodeNoise encodes other packets between two encodings of the packet under
+// test: a PUBLISH larger than it whose topic and payload have no zero byte,
+// and a random packet of the same type. Part of the case (drawn from r).
+func encodeNoise(r *gen.RNG, t int, atLeast int) {
+	mon.Guard(func() {
+		p := mq.NewPublish()
+		p.SetTopicName(strings.Repeat("~", 40))
+		p.SetPayload(bytes.Repeat([]byte{0xff}, atLeast+r.Intn(64)))
+		p.SetQoS(1)
+		p.SetPacketID(0xffff)
+		p.WriteTo(io.Discard)
+		a := gen.Packet(r, t, gen.RandomMask(r, t), gen.Small, gen.Domain{})
+		if q, err := bind.Build(a); err == nil {
+			q.WriteTo(io.Discard)
 		}
 	})
 }
